@@ -27,10 +27,10 @@ def configs(tier):
     # no budgets unless named: every configuration is closed under all PHY / UTMI / control-input choices (unbounded histories)
     out = [
         dict(name="rx-only", checks=["rx"], phy=full),
-        dict(name="rx+register-writes", checks=["rx"], phy=small, ctrl=TERM),
+        dict(name="rx+register-writes", checks=["rx"], phy=small, ctrl=TERM, **(dict(budgets=dict(ctrl=3)) if tier == "quick" else {})),
         dict(name="rx+transmit", checks=["rx"], phy=small, packets=[[0xC3, 0x5A]]),
     ]
-    if tier == "quick":      # the only budgeted configuration (the unbudgeted one runs in the thorough tier)
+    if tier == "quick":      # quick budgets: 3 control changes above, 2 changes + 1 packet here (unbudgeted in the thorough tier)
         out.append(dict(name="rx+register-writes+transmit:2-changes-1-packet", checks=["rx"], phy=small, ctrl=TERM, packets=[[0xC3, 0x5A]],
                         budgets=dict(ctrl=2, packets=1)))
     else:
